@@ -3,6 +3,8 @@
 //! Op lines:
 //!   form <kind> <rawhex> <xorhex>                      -> "<as_bytes> <to_record_key> <as_bytes(from_record_key(to_record_key))>"
 //!   distance <bytesA> <bytesB> <H(A) dec> <H(B) dec>   -> decimal of convert_distance_to_u256(a.distance(b))
+//!   bind <targetbytes> <id=peerbytes>…                 -> "id:dist …"  distances target→peer from the raw bytes (model: its own SHA-256); the
+//!                                                         pairs of the following peer-list op must agree with them (`unbound-dist` otherwise)
 //!   sort <expected> <id:dist>…                        -> "ok ids…" | "err notenough"   (sort_peers_by_address)
 //!   inrange <range> <id:dist>…                        -> "ok ids…"                      (get_peers_in_range)
 //!   closest <num|-> <range|-> <id:dist>…              -> "ok ids…"                      (Node::calculate_get_closest_peers)
@@ -116,6 +118,18 @@ fn exec(w: &World, line: &str, target: &NetworkAddress) -> String {
         ["distance", ba, bb, _, _] => {
             let (a, b) = (&w.by_bytes[*ba], &w.by_bytes[*bb]);
             format!("{}", convert_distance_to_u256(&a.distance(b)))
+        }
+        ["bind", tb, rest @ ..] => {
+            // the real code's distance from the target to every listed peer, from the address bytes
+            let t = &w.by_bytes[*tb];
+            let v: Vec<String> = rest
+                .iter()
+                .map(|p| {
+                    let (i, b) = p.split_once('=').expect("bind pair");
+                    format!("{i}:{}", convert_distance_to_u256(&t.distance(&w.by_bytes[b])))
+                })
+                .collect();
+            if v.is_empty() { "-".into() } else { v.join(" ") }
         }
         ["sort", n, rest @ ..] => {
             let peers = parse_peers(w, rest);
@@ -232,6 +246,19 @@ fn oracle(line: &str, r: &str, out: &mut Out) {
             }
             if (ba == bb) != (r == "0") {
                 out.oracle_fail("zero-iff-equal", line, &format!("distance {r} for {} addresses", if ba == bb { "equal" } else { "different" }));
+            }
+        }
+        ["bind", tb, rest @ ..] => {
+            // every bound distance is the XOR of the SHA-256 digests (sha2 + BigUint here)
+            let ht = digest(&common::unhex(tb).expect("hex"));
+            let gotp: Vec<&str> = r.split_whitespace().collect();
+            for (p, g) in rest.iter().zip(gotp.iter()) {
+                let (i, b) = p.split_once('=').expect("bind pair");
+                let expect = format!("{i}:{}", xor(&ht, &digest(&common::unhex(b).expect("hex"))));
+                if *g != expect {
+                    out.oracle_fail("xor-metric", line, &format!("bound distance {g}, XOR of SHA-256 digests gives {expect}"));
+                    break;
+                }
             }
         }
         ["sort", n, rest @ ..] => {
@@ -394,6 +421,15 @@ fn main() {
                     idx.push(idx[0]); // a duplicate peer
                 }
                 let pl = peers_line(&w, &target, &idx);
+                // bind: the model derives the same distances from the raw address bytes with its own SHA-256; the
+                // `id:dist` pairs of the peer-list op that follows must agree with them
+                {
+                    let mut uniq = idx.clone();
+                    uniq.sort();
+                    uniq.dedup();
+                    let b: Vec<String> = uniq.iter().map(|i| format!("{i}={}", hex(&NetworkAddress::from_peer(w.peers[*i]).as_bytes()))).collect();
+                    run(&w, &format!("bind {} {}", hex(&target.as_bytes()), b.join(" ")).trim_end().to_string(), &target, &mut out);
+                }
                 // range bounds around every element
                 let ht = digest(&target.as_bytes());
                 let mut bounds: Vec<BigUint> = vec![BigUint::from(0u8), (BigUint::from(1u8) << 256) - BigUint::from(1u8)];
